@@ -32,7 +32,7 @@ from . import core
 
 KIND_CONFIG = "native-pool-config"
 KIND_FAILURE = "native-pool-failure"
-LOKY_ENV = "VERIF_NATIVE_POOL_LOKY"  # F56: the loky rows of config_probe (off until the repair is in /repo)
+LOKY_ENV = "VERIF_NATIVE_POOL_LOKY"  # =0 switches the loky rows of config_probe off (F56, repaired in /repo 7487594)
 
 
 # ------------------------------------------------------------------------------------------ task functions (run in workers)
@@ -194,7 +194,7 @@ def _applicable(backend, failure):
 
 def config_cases(ctx):
     rng = ctx.rng("native-pool-config")
-    loky_on = os.environ.get(LOKY_ENV, "") not in ("", "0")
+    loky_on = os.environ.get(LOKY_ENV, "1") != "0"
     cases = []
     for backend, where, params in CONFIG_ROWS:
         if backend == "loky" and where == "parallel" and not loky_on:
@@ -376,9 +376,11 @@ def body():
 t = threading.Thread(target=body, daemon=True)
 t.start(); t.join(120)
 box["finished"] = not t.is_alive()
-print("NPRESULT " + json.dumps(box))
-sys.stdout.flush()
-os._exit(0)
+with open(sys.argv[4] + ".tmp", "w") as f:
+    json.dump(box, f)
+os.replace(sys.argv[4] + ".tmp", sys.argv[4])
+if not box["finished"]:
+    os._exit(1)
 """
 
 
@@ -394,19 +396,32 @@ def memmap_subprocess(ctx, res, backends):
         case = dict(kind=KIND_CONFIG, backend=backend, where="parallel", params=["max_nbytes", "temp_folder"], failure="task-error",
                     numpy=True)
         env = dict(os.environ, PYTHONPATH=str(core.REPO), JOBLIB_MULTIPROCESSING="1")
+        out = os.path.join(str(ctx.scratch), f"np-mm-{backend}.json")
         try:
-            p = subprocess.run([core.PY_NUMPY, script, backend, tf, "task-error"], capture_output=True, text=True, timeout=200, env=env,
-                               cwd=str(ctx.scratch))
-        except (OSError, subprocess.TimeoutExpired) as e:
+            # own session: whatever the child leaves behind (idle loky workers live on for a while) is killed with its group
+            proc = subprocess.Popen([core.PY_NUMPY, script, backend, tf, "task-error", out], stdin=subprocess.DEVNULL,
+                                    stdout=subprocess.DEVNULL, stderr=subprocess.DEVNULL, env=env, cwd=str(ctx.scratch),
+                                    start_new_session=True)
+        except OSError as e:
             res.count("native-pool-config:numpy-subprocess-unavailable")
             res.notes.append(f"native_pool.memmap_subprocess({backend}): {type(e).__name__}")
             continue
-        line = [ln for ln in p.stdout.splitlines() if ln.startswith("NPRESULT ")]
-        if not line:
+        try:
+            proc.wait(240)
+        except subprocess.TimeoutExpired:
+            pass
+        finally:
+            try:
+                os.killpg(proc.pid, signal.SIGKILL)
+            except (ProcessLookupError, PermissionError):
+                pass
+            proc.wait()
+        if not os.path.exists(out):
             res.count("native-pool-config:numpy-subprocess-unavailable")
-            res.notes.append(f"native_pool.memmap_subprocess({backend}): no result (rc={p.returncode}) {p.stderr[-200:]!r}")
+            res.notes.append(f"native_pool.memmap_subprocess({backend}): no result (rc={proc.returncode})")
             continue
-        box = json.loads(line[-1][len("NPRESULT "):])
+        with open(out) as f:
+            box = json.load(f)
         res.evaluations += 1
         res.count("native-pool-config-runs:numpy")
         if not box.get("finished"):
@@ -438,9 +453,16 @@ MP_LOST_JOB = ("arg-ununpicklable", "worker-exit", "worker-sigkill", "raise:no-r
 N_ITEMS, PRE_DISPATCH, BATCH = 30, 2, 1
 
 
-def failure_cases(ctx):
+def failure_cases(ctx, few=False):
     rng = ctx.rng("native-pool-failure")
     cases = []
+    if few:
+        # C04, quick tier: the kinds the pool itself reports, judged for "raises promptly, reusable afterwards"
+        for backend, k in (("multiprocessing", rng.choice(["result-unpicklable", "arg-unpicklable"])),
+                           ("loky", rng.choice(["arg-ununpicklable", "worker-exit", "worker-sigkill", "raise:no-rebuild"]))):
+            cases.append(dict(kind=KIND_FAILURE, backend=backend, failure=k, managed=rng.random() < 0.5, return_as="list", n=N_ITEMS,
+                              pre_dispatch=PRE_DISPATCH, batch_size=BATCH))
+        return cases
     for backend, kinds in FAILURE_KINDS.items():
         kinds = list(kinds)
         if not ctx.thorough:
@@ -484,7 +506,7 @@ def run_failure_case(ctx, res, case, joblib, prop):
             yield make(i)
 
     def body():
-        p = joblib.Parallel(n_jobs=nj, backend=backend, pre_dispatch=pd, batch_size=bs, return_as=ra, timeout=8 if lost else 60)
+        p = joblib.Parallel(n_jobs=nj, backend=backend, pre_dispatch=pd, batch_size=bs, return_as=ra, timeout=5 if lost else 60)
         if managed:
             p.__enter__()
         try:
@@ -555,10 +577,10 @@ def run_failure_case(ctx, res, case, joblib, prop):
             res.fail("not-reusable-after-failure", case, dict(first=first, second=box.get("second"), crash=box.get("crash")))
 
 
-def failure_probe(ctx, res, prop, cases=None):
+def failure_probe(ctx, res, prop, cases=None, few=False):
     joblib = core.use_repo()
     with _Quiet():
-        for case in (failure_cases(ctx) if cases is None else cases):
+        for case in (failure_cases(ctx, few) if cases is None else cases):
             run_failure_case(ctx, res, case, joblib, prop)
 
 
@@ -590,10 +612,9 @@ def probe(ctx, res, prop):
     C09: the failure kinds judged for input consumption."""
     if prop == "C04":
         config_probe(ctx, res)
-        loky_on = os.environ.get(LOKY_ENV, "") not in ("", "0")
+        loky_on = os.environ.get(LOKY_ENV, "1") != "0"
         memmap_subprocess(ctx, res, ["multiprocessing"] + (["loky"] if loky_on else []))
-        if ctx.thorough:
-            failure_probe(ctx, res, "C04")
+        failure_probe(ctx, res, "C04", few=not ctx.thorough)
     elif prop == "C09":
         failure_probe(ctx, res, "C09")
     return res
